@@ -242,15 +242,49 @@ func ruleX3(w *world.World, r *report.RuleResult) {
 			r.Und(it.fn+"|anchor", "-", "function "+it.fn+" not found: the expiry-driven deletion sites cannot be located")
 			continue
 		}
-		gen := ec.edgeGen(fn, nil)
-		must := world.Must(fn, gen, nil, nil)
+		egen := ec.edgeGen(fn, nil)
+		// a deadline is also known to be set (non-zero) on the non-zero edge of a zero test, and on the
+		// expired edge of the expiry helper (whose own zero handling is X1's helper-zero-deadline)
+		const factNonZero world.Facts = 1 << 22
+		gen := func(b *ssa.BasicBlock, si int) world.Facts {
+			f := egen(b, si)
+			iff := world.IfOf(b)
+			if iff == nil {
+				return f
+			}
+			if v, trueIsZero, ok := zeroTimeTest(iff.Cond); ok && derivesFrom(v, isExpireAtField, 0) && (si == 0) != trueIsZero {
+				f |= factNonZero
+			}
+			if f&factExpired != 0 && ec.viaHelper(iff.Cond) {
+				f |= factNonZero
+			}
+			return f
+		}
+		// what was learnt about an entry holds only while the lock under which it was read is held:
+		// releasing a mutex forgets the expiry facts (decision and removal must be one critical section)
+		kill := func(in ssa.Instruction) world.Facts {
+			if c, ok := in.(*ssa.Call); ok {
+				if f := c.Call.StaticCallee(); f != nil {
+					switch f.String() {
+					case "(*sync.RWMutex).Unlock", "(*sync.RWMutex).RUnlock", "(*sync.Mutex).Unlock":
+						return factExpired | factAlive | factNonZero
+					}
+				}
+			}
+			return 0
+		}
+		must := world.Must(fn, gen, nil, kill)
 		n := 0
 		check := func(in ssa.Instruction, what string) {
 			n++
 			key := fmt.Sprintf("%s|delete:%s", it.fn, what)
-			f := world.FactsAt(must, in, nil, nil)
+			f := world.FactsAt(must, in, nil, kill)
+			if f&factExpired != 0 && f&factNonZero == 0 {
+				r.Fail(key, w.InstrPos(in), fmt.Sprintf("%s removes (or marks for removal) a key here on a path that tested 'deadline before now' but not that a deadline is set: the zero time is before every clock reading, so an entry without expiry (e.g. a value written over an expired, not yet collected key) is deleted by expiry", it.fn))
+				return
+			}
 			if f&factExpired != 0 {
-				r.OK(key, w.InstrPos(in), "removal reached only over the 'deadline has passed' edge")
+				r.OK(key, w.InstrPos(in), "removal reached only over the 'deadline is set and has passed' edges")
 			} else {
 				r.Fail(key, w.InstrPos(in), fmt.Sprintf("%s removes (or marks for removal) a key here on a path that did not establish that the key's deadline has passed: keys that have not expired, or have no expiry at all, are deleted", it.fn))
 			}
@@ -645,12 +679,69 @@ func ruleA2(w *world.World, r *report.RuleResult) {
 		}
 		return false
 	}
-	must := world.Must(fn, func(b *ssa.BasicBlock, si int) world.Facts {
+	overGen := func(b *ssa.BasicBlock, si int) world.Facts {
 		if overEdge(b, si) {
 			return OVER
 		}
 		return 0
-	}, nil, nil)
+	}
+	// what was established about usage holds until something that can change the counter runs
+	writesMem := map[*ssa.Function]bool{}
+	mayWriteMem := func(f *ssa.Function) bool {
+		if v, ok := writesMem[f]; ok {
+			return v
+		}
+		writesMem[f] = false
+		res := false
+		for _, g := range w.ReachCalls(f).Fns {
+			for _, b := range g.Blocks {
+				for _, in := range b.Instrs {
+					if st, ok := in.(*ssa.Store); ok {
+						if fa, ok := st.Addr.(*ssa.FieldAddr); ok && world.FieldName(fa) == "memUsed" {
+							res = true
+						}
+					}
+				}
+			}
+		}
+		writesMem[f] = res
+		return res
+	}
+	kill := func(in ssa.Instruction) world.Facts {
+		c, ok := in.(ssa.CallInstruction)
+		if !ok {
+			return 0
+		}
+		if _, isB := c.Common().Value.(*ssa.Builtin); isB {
+			return 0
+		}
+		for _, g := range w.Callees(c) {
+			if world.InModule(g) && mayWriteMem(g) {
+				return OVER
+			}
+		}
+		return 0
+	}
+	// the guard may live in the callers (hoisted out of this function): the fact holds on entry when
+	// every static call site establishes it
+	entry := world.Facts(0)
+	nSites := 0
+	for _, cf := range w.ModFns {
+		for _, c := range world.Calls(cf) {
+			if c.Common().StaticCallee() != fn {
+				continue
+			}
+			cm := world.Must(cf, overGen, nil, kill)
+			f := world.FactsAt(cm, c, nil, kill)
+			if nSites == 0 {
+				entry = f
+			} else {
+				entry &= f
+			}
+			nSites++
+		}
+	}
+	must := world.MustFrom(fn, entry&OVER, overGen, nil, kill)
 	isGuard := func(b *ssa.BasicBlock) bool {
 		iff := world.IfOf(b)
 		if iff == nil {
@@ -672,7 +763,7 @@ func ruleA2(w *world.World, r *report.RuleResult) {
 			}
 			n++
 			key := fmt.Sprintf("%s|evict:%s", fname, name)
-			if world.FactsAt(must, in, nil, nil)&OVER == 0 {
+			if world.FactsAt(must, in, nil, kill)&OVER == 0 {
 				r.Fail(key, w.InstrPos(in), "an eviction is reachable although usage has not been established to be at or above the limit: keys are removed while the server is under its memory limit")
 				continue
 			}
